@@ -25,7 +25,7 @@ ASSUMPTIONS = ["schedule-owning pool models imap_unordered as an arbitrary compl
 
 @st.composite
 def cases(draw, tier="quick"):
-    spec = draw(plotgen.plot_specs(thin=True, ndims=3, min_levels=draw(st.sampled_from([2, 1, 2, 3])), max_cells=2500 if tier == "quick" else 8000, max_fields=5,
+    spec = draw(plotgen.plot_specs(thin=True, level_prefix=True, ndims=3, min_levels=draw(st.sampled_from([2, 1, 2, 3])), max_cells=2500 if tier == "quick" else 8000, max_fields=5,
                                    payload_kinds=("special", "coded", "random"),
                                    layouts=("scatter", "nonmono", "scatter", "single")))
     nlev = spec["mesh"]["nlev"]
